@@ -112,6 +112,20 @@ def _fail(c, msg, key=''):
 
 
 def body(c, stats: Stats, harness_queue=None):
+    """The operations are total on the generated (documented-well-formed, small) inputs: an exception raised inside the
+    repository's code - including unbounded recursion on these depth <= 5 patterns - is a failure of the property."""
+    try:
+        return _body(c, stats, harness_queue)
+    except (Violation, common.HarnessError):
+        raise
+    except Exception as e:  # noqa: BLE001 - classified by origin below
+        where = common.raised_in_repo(e)
+        if where is None:
+            raise
+        _fail(c, '[%s] the operation raised instead of returning a pattern: %s' % (c['part'], where), c['part'] + '-raises')
+
+
+def _body(c, stats: Stats, harness_queue=None):
     _, _, defs = _nots()
     part = c['part']
     if part == 'py-subst':
